@@ -87,6 +87,18 @@ func (g *gen) scalarGrid() []*gv {
 	for c := 0; c < 0x20; c++ {
 		out = append(out, &gv{kind: 'S', s: string(rune(c))})
 	}
+	// the same contents as raw (backtick) literals, where the reader can deliver them
+	for _, s := range advRunes {
+		if validStr(s) {
+			out = append(out, &gv{kind: 'S', raw: true, s: s}, &gv{kind: 'S', raw: true, s: "a" + s + "b"})
+		}
+	}
+	for _, s := range []string{`C:\new`, `^\d+$`, "two\nlines", "tab\there", `\u0041`, `say "hi"`, `back\\slash\`, "\x01\x1f", "é\\😀"} {
+		out = append(out, &gv{kind: 'S', raw: true, s: s})
+	}
+	for c := 1; c < 0x20; c++ {
+		out = append(out, &gv{kind: 'S', raw: true, s: string(rune(c))})
+	}
 	return out
 }
 
@@ -150,7 +162,8 @@ func (g *gen) scalar() *gv {
 	case 4, 5:
 		return g.float()
 	}
-	return &gv{kind: 'S', s: g.str()}
+	s := g.str()
+	return &gv{kind: 'S', s: s, raw: r.Intn(4) == 0 && validStr(s)}
 }
 
 // typed gives a value for a declared field type.
@@ -169,7 +182,8 @@ func (g *gen) typed(ty string, depth int) *gv {
 		}
 		return f
 	case 's':
-		return &gv{kind: 'S', s: g.str()}
+		s := g.str()
+		return &gv{kind: 'S', s: s, raw: r.Intn(4) == 0 && validStr(s)}
 	case 'b':
 		return &gv{kind: 'B', b: r.Bool()}
 	}
@@ -299,6 +313,7 @@ var sourceTexts = []string{
 	`(hash a:1 b:"x" c:[1 2.5 "s"])`, `{a:1 b:{c:2}}`, `(hash)`, `[]`, `[1 2 [3 [4 [5]]]]`, `(ranch cowboy:"Jim" cows:["Zelda" "Bart"])`,
 	`(Rec id:1 s:"x" p:(Pt x:1.5 y:2.5 name:"n") ok:true w:0.5)`, `(Pt x:3.0)`, `(Pt y:1e3 x:0.5)`, `(Rec p:(Pt))`,
 	`{a:1e19}`, `{a:10000000000000000000.0}`, `{a:-0.0}`, `[9223372036854775807 -9223372036854775808]`, `[1.0 2.50 1e21 1e-7]`,
+	"`C:\\new`", "{a:`^\\d+$` b:[`x\\ty` \"q\"]}", "(Pt name:`raw \\ \"quoted\"\nsecond line`)", "{`raw key`:1 `k\\2`:`v\\n`}", "(hash a:`\x01`)",
 	`"plain"`, `12`, `1.25`, `true`, `nil`, `{a:nil b:true}`,
 }
 
